@@ -2,7 +2,7 @@
 # usage: batch_own.sh <logfile> <Cxx> ...  -- each mutant against its own property's check (+ extras given in EXTRA)
 log=$1; shift
 for c in "$@"; do
-  for v in a b; do
+  for v in ${VARIANTS:-a b}; do
     p=${SEEDROOT:-/tmp/seed}/$c/OUT/$v/patch.diff
     [ -f "$p" ] || { echo "RESULT $c$v no-patch" >> "$log"; continue; }
     /verif/tools/try_mutant.sh "$p" "$c$v" $c ${EXTRA:-} >> "$log" 2>&1
